@@ -83,8 +83,8 @@ static void project(struct Slot* so, int o) {
       while (it != Terminal && n < lim) {
         addr_sig = (addr_sig ^ (uint64_t)(uintptr_t)it) * 0x100000001b3ULL;
         long long tk = vt_token(vt_k, vt_nk, it);
-        if (ktk == VT_PROBE) { ks[nks] = ((struct Probe*)it)->serial; nks++; }
-        if (vtk == VT_PROBE) { var v = get(c, it); vs[nvs] = ((struct Probe*)v)->serial; nvs++; }
+        if (IS_PROBE(ktk)) { ks[nks] = ((struct Probe*)it)->serial; nks++; }
+        if (IS_PROBE(vtk)) { var v = get(c, it); vs[nvs] = ((struct Probe*)v)->serial; nvs++; }
         buf[n] = tk; n++;
         it = iter_next(c, it);
       }
@@ -149,7 +149,7 @@ static void emit(struct Slot* objs, const char* op, int o, int k, int v, long lo
   ev_begin(op);
   ev_int("o", o); ev_int("k", k); ev_int("v", v); ev_int("n", n); ev_int("src", src);
   ev_str("what", what); ev_str("exc", exc); ev_str("msg", hc_msg); ev_int("r", r);
-  ev_int("own", (ktk == VT_PROBE || vtk == VT_PROBE) ? 1 : 0);
+  ev_int("own", (IS_PROBE(ktk) || IS_PROBE(vtk)) ? 1 : 0);
   ev_arr_begin("init");
   for (size_t i = 0; i + 1 < n_init; i += 2) { if (i) ev_s(","); ev_s("["); ev_i(init_pairs[i]); ev_s(","); ev_i(init_pairs[i + 1]); ev_s("]"); }
   ev_arr_end();
@@ -332,7 +332,7 @@ int main(int argc, char** argv) {
       volatile var saved = NULL; volatile long long n1 = -1; const char* x = "";
       HC_TRY(saved = copy(so->obj));
       if (saved && !hc_exc[0]) {
-        var akt = ktk == VT_ODD ? Int : Odd12, avt = vtk == VT_PROBE ? Int : Probe;
+        var akt = ktk == VT_ODD ? Int : Odd12, avt = IS_PROBE(vtk) ? Int : Probe;
         var alien = so->kind == 2 ? (var)new_raw(Tree, akt, avt) : (var)new_raw(Table, akt, avt);
         for (int i = 0; i < 2; i++) {
           var ak = akt == Int ? (var)new_raw(Int, $I(40 + i)) : (var)new_raw(Odd12, $I(40 + i));
